@@ -8,15 +8,20 @@ rm -rf $S; mkdir -p $S
 rsync -a --exclude _build --exclude .git /repo/ $S/
 ( cd $S && patch -p1 -s < $P ) || { echo "patch failed"; exit 2; }
 cd /verif
+mkdir -p /verif/.build
 for c in "$@"; do
-  VERIF_REPO=$S timeout 3000 ./check $c --tier ${TIER:-quick} > /tmp/mut_${TAG}_$c.log 2>&1; rc=$?
-  echo "== $TAG $c exit=$rc"; grep -E "^VIOLATION|^KNOWN-FINDING|INFRA| ok | FAIL " /tmp/mut_${TAG}_$c.log | grep -v "^KNOWN-FINDING" | head -5
-done
-# the translator tables (coq/Gen_*.v) were regenerated from the scratch copy: regenerate them from /repo
-for c in "$@"; do python3 -c "
+  # one mutant run per check at a time: the translator tables coq/Gen_<check>.v are shared files
+  (
+    flock -x 9
+    VERIF_REPO=$S timeout 3000 ./check $c --tier ${TIER:-quick} > /tmp/mut_${TAG}_$c.log 2>&1; rc=$?
+    echo "== $TAG $c exit=$rc"; grep -E "^VIOLATION|^KNOWN-FINDING|INFRA| ok | FAIL " /tmp/mut_${TAG}_$c.log | grep -v "^KNOWN-FINDING" | head -5
+    # the translator tables were regenerated from the scratch copy: regenerate them from /repo
+    python3 -c "
 import sys; sys.path.insert(0,'/verif')
 import importlib; m = importlib.import_module('checks.$c')
 if hasattr(m, 'pregen'): m.pregen()
-" >/dev/null 2>&1; done
+" >/dev/null 2>&1
+  ) 9>/verif/.build/mutlock_$c
+done
 H=$(python3 -c "import hashlib,sys; print(hashlib.sha1(sys.argv[1].encode()).hexdigest()[:8])" $S)
-rm -rf $S /verif/.build/cgns_$H /verif/.build/h_$H /verif/.build/cgns_f_$H
+rm -rf $S /verif/.build/cgns_$H /verif/.build/h_$H /verif/.build/cgns_f_$H /verif/.work/out_$H /verif/.work/*_$H
